@@ -758,7 +758,7 @@ Proof.
   cbn [njoin n_gs n_it]. rewrite concat_app, dkeys_app. now apply Subseq_app.
 Qed.
 
-Theorem product_is_cartesian_guarded s others ls :
+Lemma product_body_cartesian s others ls :
   Forall (fun o => wf_sweep o = true) (s :: others) ->
   NoDup (concat (map all_keys (s :: others))) ->
   Forall local_sweep (s :: others) ->
@@ -766,7 +766,7 @@ Theorem product_is_cartesian_guarded s others ls :
   Forall (fun o => items o <> []) (s :: others) ->
   (dims s = None -> Forall (fun o => dims o = None) others) ->
   mapM generate (s :: others) = Ok ls ->
-  exists p l, product s others = Ok p /\ generate p = Ok l /\ Forall2 ceq l (cart_union ls)
+  exists p l, product_body s others = Ok p /\ generate p = Ok l /\ Forall2 ceq l (cart_union ls)
               /\ len p = Ok (length l).
 Proof.
   intros Hwf Hnd Hloc Hord Hne Hdims Hgen.
@@ -804,8 +804,8 @@ Proof.
   destruct (combine_dicts_norm _ HkN) as [k [Hk1 Hk2]]. destruct (combine_dicts_norm _ HdN) as [d [Hd1 Hd2]].
   set (p := {| items := items s ++ concat (map items others); dims := dmp;
                excl := combined_exclude (map excl ops); consts := k; ders := d |}).
-  assert (Hp : product s others = Ok p).
-  { unfold product. rewrite Hfold. fold ops. rewrite Hk1, Hd1. reflexivity. }
+  assert (Hp : product_body s others = Ok p).
+  { unfold product_body. rewrite Hfold. fold ops. rewrite Hk1, Hd1. reflexivity. }
   assert (Enorm : nspec (norm p) = nspec N).
   { apply nspec_ext.
     - unfold N. rewrite fold_njoin_it. cbn [norm n_it p items]. now rewrite map_map.
@@ -837,4 +837,33 @@ Proof.
   split; [exact Hgp|]. split.
   - rewrite <- fold_prodl_cart. exact HcN.
   - now apply len_eq_length.
+Qed.
+
+(* ---------- operands without items: no combinations, and none in the product ---------- *)
+Lemma cart_union_nil_in ls : In [] ls -> cart_union ls = [].
+Proof.
+  induction ls as [|l t IH]; intros H; [contradiction|]. cbn [cart_union]. destruct H as [->|H]; [reflexivity|].
+  rewrite (IH H). clear. induction l as [|a l IHl]; [reflexivity|]. cbn. exact IHl.
+Qed.
+
+Theorem product_is_cartesian_guarded s others ls :
+  Forall (fun o => wf_sweep o = true) (s :: others) ->
+  NoDup (concat (map all_keys (s :: others))) ->
+  Forall local_sweep (s :: others) ->
+  Forall (fun o => in_item_order o = true) (s :: others) ->
+  (dims s = None -> Forall (fun o => dims o = None) others) ->
+  mapM generate (s :: others) = Ok ls ->
+  exists p l, product s others = Ok p /\ generate p = Ok l /\ Forall2 ceq l (cart_union ls)
+              /\ len p = Ok (length l).
+Proof.
+  intros Hwf Hnd Hloc Hord Hdims Hgen. unfold product. destruct (existsb no_items (s :: others)) eqn:E.
+  - apply existsb_exists in E as [o [Ho Hno]].
+    assert (Hit : items o = []) by (unfold no_items in Hno; destruct (items o); [reflexivity|discriminate]).
+    destruct (mapM_Ok_inv _ _ _ Hgen o Ho) as [y [Hy Hin]]. rewrite (generate_nil o Hit) in Hy. injection Hy as <-.
+    exists empty_sweep, []. split; [reflexivity|]. split; [reflexivity|]. rewrite (cart_union_nil_in _ Hin).
+    split; [constructor|reflexivity].
+  - apply product_body_cartesian; try assumption. apply Forall_forall. intros o Ho Hit.
+    assert (Hn : existsb no_items (s :: others) = true).
+    { apply existsb_exists. exists o. split; [assumption|]. unfold no_items. now rewrite Hit. }
+    congruence.
 Qed.
